@@ -116,7 +116,9 @@ class Ctx:
                 open(os.path.join(d, name), "w").write(content)
         if workers is None:
             workers = os.cpu_count() or 4
-        java = ["java", "-XX:+UseParallelGC", "-Xss512m"]
+        jtmp = os.path.join(d, "jtmp")      # TLC unpacks its standard modules into java.io.tmpdir and leaves them there
+        os.makedirs(jtmp, exist_ok=True)
+        java = ["java", "-XX:+UseParallelGC", "-Xss512m", "-Djava.io.tmpdir=" + jtmp]
         java.append("-Xmx%s" % (heap or "8g"))
         if dfs:
             java.append("-Dtlc2.tool.queue.IStateQueue=StateDeque")
